@@ -16,13 +16,12 @@ for patch in sorted(glob.glob(V + '/twins/*/patch.diff')):
     viol, errs = [], []
     try:
         subprocess.check_call(['git', '-C', '/repo', 'apply', patch])
-        for p in props:
-            out = subprocess.run([V + '/check', p, '--tier', 'quick'], capture_output=True, text=True)
-            for line in out.stdout.splitlines():
-                if re.match(r'^(\S+?):(\d+): \[(C\d+)/', line):
-                    viol.append(line[:230])
-                if line.startswith('ANALYSIS-ERROR'):
-                    errs.append(line[:230])
+        out = subprocess.run([V + '/check', 'all', '--tier', 'quick'], capture_output=True, text=True)
+        for line in out.stdout.splitlines():
+            if re.match(r'^(\S+?):(\d+): \[(C\d+)/', line):
+                viol.append(line[:230])
+            if line.startswith('ANALYSIS-ERROR'):
+                errs.append(line[:230])
     finally:
         subprocess.check_call(['git', '-C', '/repo', 'checkout', '--', '.'])
     meta['false_alarms'] = viol
